@@ -592,7 +592,29 @@ pub fn step<Q: QueueLike>(q: &mut Q, op: &Op, m: &mut Model, unordered: &mut boo
             let olen = o.q_len();
             let slen = m.len();
             mark_cmp();
-            q.q_append(&mut o);
+            {
+                // if user code panics inside append (fault layer), the OTHER queue is still the caller's:
+                // it is used again (peeks, guards, a push and pops) before the panic travels on
+                let r = catch_unwind(AssertUnwindSafe(|| q.q_append(&mut o)));
+                if let Err(e) = r {
+                    let _ = catch_unwind(AssertUnwindSafe(|| {
+                        let _ = o.q_peek_hi().map(|x| x.1.v);
+                        let _ = o.q_peek_lo().map(|x| x.1.v);
+                        let _ = o.q_peek_hi_mut().map(|x| x.1.v);
+                    }));
+                    let _ = catch_unwind(AssertUnwindSafe(|| o.q_pop_hi_if(|_, _| false).is_some()));
+                    let _ = catch_unwind(AssertUnwindSafe(|| drop(o.q_iter_mut())));
+                    let _ = catch_unwind(AssertUnwindSafe(|| {
+                        o.q_push(Item::new(7_000_000, 0), Prio::new(0));
+                    }));
+                    for _ in 0..3 {
+                        let _ = catch_unwind(AssertUnwindSafe(|| o.q_pop_hi().is_some()));
+                        let _ = catch_unwind(AssertUnwindSafe(|| o.q_pop_lo().is_some()));
+                    }
+                    let _ = catch_unwind(AssertUnwindSafe(move || drop(o)));
+                    std::panic::resume_unwind(e);
+                }
+            }
             let append_cmps = cmps_since_mark();
             let os = o.snap();
             if o.q_len() != 0 || !o.q_is_empty() || os.map_len != 0 || !os.heap.is_empty() || !os.qp.is_empty() || os.size != 0 {
